@@ -212,7 +212,7 @@ class _Raises(Exception):
 def _default_command_rule(cx, repo, parse_args):
     """R19e: what ArgParser.parse_args hands to argparse, decided on the finite partition of its inputs (see _Model)."""
     from sa.inline import inlined
-    fn, used = inlined(repo.modules[REL], parse_args)
+    fn, used = inlined(repo.modules[REL], parse_args, tests=True)
     cx.note(f"R19e: parse_args analysed with {used or 'no'} helper(s) inlined")
     n = 0
     for multi in (False, True):
